@@ -103,7 +103,15 @@ func ruleDeclaredSizes(p *Prog, r *Report) {
 	if fn := p.MustFunc(r, "sml", "(*parser).checkDataItemSizeError"); fn != nil {
 		si, li, ui := paramIndex(fn, "size"), paramIndex(fn, "lowerLimit"), paramIndex(fn, "upperLimit")
 		if si < 0 || li < 0 || ui < 0 {
-			r.unk(rule, rule+":sml.checkDataItemSizeError", p.Pos(fn.Pos()), "parameters size/lowerLimit/upperLimit not found")
+			// the check no longer takes (size, lower, upper) as three integers: it
+			// is decided through the item parser, on a grid of sizes and bounds
+			if d, decided, good := sizeCheckThroughItems(p); !decided {
+				r.unk(rule, rule+":sml.checkDataItemSizeError", p.Pos(fn.Pos()), "parameters size/lowerLimit/upperLimit not found, and the item parser could not be evaluated on sized items")
+			} else if good {
+				r.ok(rule, rule+":sml.checkDataItemSizeError", p.Pos(fn.Pos()), d)
+			} else {
+				r.bad(rule, rule+":sml.checkDataItemSizeError", p.Pos(fn.Pos()), d)
+			}
 		} else {
 			CheckDomain(p, r, DomainSpec{Rule: rule, Key: rule + ":sml.checkDataItemSizeError", Fn: fn, Sink: isParserErrorf,
 				Subjs: []Subj{
@@ -265,7 +273,8 @@ func ruleDeclaredSizes(p *Prog, r *Report) {
 		in := symInterp(p)
 		var got []string
 		in.OnCall = func(call *ssa.Call, callee *ssa.Function, a []Val, fr *frame) {
-			if fr.fn == fn && callee.Name() == "NewASCIINodeVariable" {
+			if callee.Name() == "NewASCIINodeVariable" && len(a) == 3 {
+				// in parseASCII itself or in a helper it hands the bounds to
 				got = []string{a[1].String(), a[2].String()}
 			}
 		}
@@ -439,6 +448,36 @@ func ruleDeclaredSizes(p *Prog, r *Report) {
 			}
 			if rets[0][1].I.Int64() != c.min || rets[0][2].I.Int64() != c.max {
 				wrong = append(wrong, fmt.Sprintf("the size %s yields the bounds (%s, %s), expected (%d, %d)", c.text, rets[0][1], rets[0][2], c.min, c.max))
+			}
+		}
+		if !evaluated {
+			// the reader no longer returns (token, lower, upper): read the bounds
+			// off the variable the item parser builds for <A [size] v>
+			if item := p.Func("sml", "(*parser).parseDataItem"); item != nil {
+				viaItem := true
+				wrong = nil
+				for _, c := range cases {
+					toks, ok := lexAll(p, "lexMessageText", "<A "+c.text+" v>", 100)
+					if !ok {
+						viaItem = false
+						break
+					}
+					obs, _, ok := parseRun(p, item, toks, 2)
+					var o *parseObs
+					for i := range obs {
+						if obs[i].factory == "NewASCIINodeVariable" {
+							o = &obs[i]
+						}
+					}
+					if !ok || o == nil || len(o.args) != 3 || o.args[1].K != KInt || o.args[2].K != KInt {
+						viaItem = false
+						break
+					}
+					if o.args[1].I.Int64() != c.min || o.args[2].I.Int64() != c.max {
+						wrong = append(wrong, fmt.Sprintf("the size %s yields the bounds (%s, %s), expected (%d, %d)", c.text, o.args[1], o.args[2], c.min, c.max))
+					}
+				}
+				evaluated = viaItem
 			}
 		}
 		if evaluated {
@@ -1150,4 +1189,55 @@ func onlyWalked(v ssa.Value, depth int) bool {
 		}
 	}
 	return true
+}
+
+// sizeCheckThroughItems: the item parser evaluated on U1 items of 0 to 3
+// values under every size declaration with bounds 0 to 4 ([n], [a..b], [a..],
+// [..b]): the item is diagnosed exactly when its size lies outside the
+// declared bounds (an inverted range accepts nothing).
+func sizeCheckThroughItems(p *Prog) (string, bool, bool) {
+	fn := p.Func("sml", "(*parser).parseDataItem")
+	if fn == nil {
+		return "", false, false
+	}
+	type form struct {
+		text   string
+		lo, hi int64
+	}
+	var forms []form
+	for a := int64(0); a <= 4; a++ {
+		forms = append(forms, form{fmt.Sprintf("[%d]", a), a, a}, form{fmt.Sprintf("[%d..]", a), a, -1}, form{fmt.Sprintf("[..%d]", a), 0, a})
+		for b := int64(0); b <= 4; b++ {
+			forms = append(forms, form{fmt.Sprintf("[%d..%d]", a, b), a, b})
+		}
+	}
+	var bad []string
+	n := 0
+	for size := int64(0); size <= 3; size++ {
+		vals := strings.Repeat(" 7", int(size))
+		for _, f := range forms {
+			text := "<U1 " + f.text + vals + ">"
+			toks, ok := lexAll(p, "lexMessageText", text, 200)
+			if !ok {
+				return "", false, false
+			}
+			_, diags, ok := parseRun(p, fn, toks, 2)
+			if !ok {
+				return "", false, false
+			}
+			n++
+			in := f.lo <= size && (f.hi == -1 || size <= f.hi)
+			if got := len(diags) > 0; got == in {
+				if in {
+					bad = append(bad, fmt.Sprintf("%s is diagnosed although %d lies within the declared bounds", text, size))
+				} else {
+					bad = append(bad, fmt.Sprintf("%s is not diagnosed although %d lies outside the declared bounds", text, size))
+				}
+			}
+		}
+	}
+	if len(bad) > 0 {
+		return strings.Join(firstN(bad, 3), "; "), true, false
+	}
+	return fmt.Sprintf("the item parser evaluated on %d U1 items of 0 to 3 values under every size declaration with bounds 0 to 4 (exact, range, open above, open below): diagnosed exactly when the size lies outside the bounds", n), true, true
 }
